@@ -479,6 +479,21 @@ fn check_tape(tape: &[u8], gates: &Gates, codes: &[String], stats: &mut Stats, c
         }
         let d = nest.to_string_lossy().to_string();
         let dd = deeper.to_string_lossy().to_string();
+        // the upper directory alone is the list of ITS files: what lies in its sub-directory is not part
+        // of it (the listing is not recursive), whatever that is
+        {
+            let mut top: Vec<String> = vec!["check".to_string()];
+            top.extend((0..k).map(|i| nest.join(crate::drive::set_file_name(i)).to_string_lossy().to_string()));
+            if let (Some(a), Some(b2)) = (observe_check(&top), observe_check(&["check".to_string(), d.clone()])) {
+                if counting {
+                    stats.class("check.directory-with-a-populated-sub-directory");
+                }
+                channels_agree(&b2, codes, "check <dir with a sub-directory>").map_err(|(k2, d2)| fail("channels", &k2, d2))?;
+                if (a.status == Some(0)) != (b2.status == Some(0)) {
+                    return Err(fail("nested", "directory-vs-its-files", format!("`check <dir>` exits {:?}, `check <the {} file(s) of that directory>` exits {:?}; the directory has a sub-directory with {} more file(s)", b2.status, k, a.status, files.len() - k)));
+                }
+            }
+        }
         let orders: Vec<Vec<String>> = vec![
             std::iter::once(d.clone()).chain(deep_files.iter().cloned()).collect(),
             deep_files.iter().cloned().chain(std::iter::once(d.clone())).collect(),
